@@ -31,6 +31,7 @@ type Scope struct {
 	callee  string
 	bound   map[string]bool
 	next0   string // allocation frontier at the "old" state
+	retGuards map[string]bool // path conditions of the calls that ret(...) refers to
 	failed  error
 }
 
@@ -83,6 +84,15 @@ func (un *Unit) scopeFor(fr *Frame, cur, old *State, results []Val) *Scope {
 				p := un.placeOf(cur, v, pt.Elem())
 				// value of the captured variable: state dependent; resolve lazily through a marker
 				sc.vars[fv.Name()] = SV{t: "", typ: pt.Elem(), place: p}
+			}
+		}
+	}
+	if fr.contract != nil && len(fr.contract.Names) > 0 && fr.fn == un.fn {
+		// contract parameter names bind positionally (interface contracts checked against an implementation)
+		for i, n := range fr.contract.Names {
+			if i < len(fn.Params) {
+				v := fr.env[fn.Params[i]]
+				sc.vars[n] = SV{t: v.t, typ: fn.Params[i].Type(), place: v.place}
 			}
 		}
 	}
@@ -773,7 +783,7 @@ func (un *Unit) evIndex(e *EIndex, sc *Scope) SV {
 				keys := append(append([]string{}, x.place.keys...), i.t)
 				return SV{t: sel(un.get(sc.cur, x.place.comp), keys...), typ: at.Elem()}
 			}
-			c := un.cellComp(xt.Elem())
+			c := un.elemComp(at.Elem())
 			return SV{t: sel(un.get(sc.cur, c), x.t, i.t), typ: at.Elem()}
 		}
 	}
@@ -918,6 +928,9 @@ func (un *Unit) evCall(e *ECall, sc *Scope) SV {
 		key := fmt.Sprintf("%s#%d", callee, k)
 		if sc.fr != nil {
 			if rs, ok := sc.fr.callRes[key]; ok && i < len(rs) {
+				if sc.retGuards != nil && rs[i].callGuard != "" {
+					sc.retGuards[rs[i].callGuard] = true
+				}
 				return SV{t: rs[i].t, typ: rs[i].typ}
 			}
 		}
@@ -1105,6 +1118,13 @@ func (un *Unit) applyContract(fr *Frame, st *State, fc *FuncContract, names []st
 			un.havocLvalue(cl.Text, sc, st)
 		}
 	}
+	cbVars := map[string]SV{}
+	if cbName := fc.Opts["callback"]; cbName != "" {
+		un.applyCallback(fr, st, fc, names, args, cbName, cbVars, pos)
+		if un.outside != "" {
+			return Val{t: "0"}
+		}
+	}
 	res := un.havocResults(st, sig, shortKey(calleeKey))
 	var rvals []Val
 	if sig.Results().Len() == 1 {
@@ -1115,13 +1135,28 @@ func (un *Unit) applyContract(fr *Frame, st *State, fc *FuncContract, names []st
 	for i := range rvals {
 		rvals[i].typ = sig.Results().At(i).Type()
 	}
+	for i := range rvals {
+		rvals[i].callGuard = pre.guard
+	}
 	fr.callRes[fmt.Sprintf("%s#%d", shortKey(calleeKey), ord)] = rvals
+	last := calleeKey
 	if i := strings.LastIndex(calleeKey, "."); i >= 0 {
-		fr.callRes[fmt.Sprintf("%s#%d", calleeKey[i+1:], ord)] = rvals
+		last = calleeKey[i+1:]
+		fr.callRes[fmt.Sprintf("%s#%d", last, ord)] = rvals
+	}
+	// calls made by inlined callees are also visible, in execution order, to the enclosing frames
+	for f := fr.parent; f != nil; f = f.parent {
+		f.calls[calleeKey]++
+		o := f.calls[calleeKey]
+		f.callRes[fmt.Sprintf("%s#%d", shortKey(calleeKey), o)] = rvals
+		f.callRes[fmt.Sprintf("%s#%d", last, o)] = rvals
 	}
 	post := sc.child()
 	post.cur = st
 	post.old = pre
+	for k, v := range cbVars {
+		post.vars[k] = v
+	}
 	un.bindResults(post, sig, rvals, fc)
 	for _, cl := range fc.Clauses {
 		if cl.Kind != "ensures" {
@@ -1360,4 +1395,95 @@ func labelOr(l, d string) string {
 		return d
 	}
 	return l
+}
+
+
+// applyCallback models a higher-order callee that invokes its function argument at most once
+// (opt callback <param>): the call happens under a fresh boolean cb_called; its results are cb_ret0, cb_ret1, ...
+// The argument passed to the callback is a fresh byte slice (the callee's private view of its data).
+func (un *Unit) applyCallback(fr *Frame, st *State, fc *FuncContract, names []string, args []Val, cbName string, vars map[string]SV, pos token.Pos) {
+	idx := -1
+	for i, n := range names {
+		if n == cbName {
+			idx = i
+		}
+	}
+	if idx < 0 || idx >= len(args) {
+		un.outside = "callback parameter " + cbName + " not found"
+		return
+	}
+	fv := args[idx]
+	var cbSig *types.Signature
+	if fv.typ != nil {
+		cbSig, _ = fv.typ.Underlying().(*types.Signature)
+	}
+	if cbSig == nil && fv.fn != nil {
+		cbSig = fv.fn.Signature
+	}
+	if cbSig == nil {
+		un.outside = "callback " + cbName + ": unknown signature"
+		return
+	}
+	called := un.u.freshConst("cb_called", "Bool")
+	skip := st.clone()
+	skip.guard = and(st.guard, not(called))
+	run := st.clone()
+	run.guard = and(st.guard, called)
+	// arguments: fresh slices / havoc values
+	var cargs []Val
+	var cats []types.Type
+	for i := 0; i < cbSig.Params().Len(); i++ {
+		pt := cbSig.Params().At(i).Type()
+		cats = append(cats, pt)
+		if _, ok := pt.Underlying().(*types.Slice); ok {
+			arr := un.allocRef(run, "cbarg")
+			ln := un.u.freshConst("cbarg_len", "Int")
+			un.addFact("(>= " + ln + " 0)")
+			cargs = append(cargs, Val{t: fmt.Sprintf("(mk_slice %s 0 %s %s)", arr, ln, ln), typ: pt})
+		} else {
+			c := un.u.freshConst("cbarg", un.u.sortOf(pt))
+			un.assume(run, un.typeFacts(run, c, pt))
+			cargs = append(cargs, Val{t: c, typ: pt})
+		}
+	}
+	var r Val
+	switch {
+	case fv.fn != nil:
+		r = un.callStatic(fr, run, fv.fn, fv.binds, cargs, cats, pos)
+	default:
+		handled := false
+		// a function-typed parameter of the unit with a funcspec
+		if fr.contract != nil {
+			for pn, fsName := range fr.contract.Params {
+				for _, p := range fr.fn.Params {
+					if p.Name() == pn && fr.env[p].t == fv.t {
+						if fs := un.specs.FuncSpecs[fsName]; fs != nil {
+							r = un.applyContract(fr, run, fs, sigNames(cbSig, fs), cbSig, cargs, pn, pos)
+							handled = true
+						}
+					}
+				}
+			}
+		}
+		if !handled {
+			un.fullHavoc(run, "callback with unknown function value")
+			r = un.havocResults(run, cbSig, "cb")
+		}
+	}
+	if un.outside != "" {
+		return
+	}
+	var rs []Val
+	if cbSig.Results().Len() == 1 {
+		rs = []Val{r}
+	} else {
+		rs = r.tuple
+	}
+	m := un.mergeStates([]*State{run, skip})
+	st.guard, st.heap, st.base = m.guard, m.heap, m.base
+	vars["cb_called"] = boolSV(called)
+	for i := range rs {
+		rt := cbSig.Results().At(i).Type()
+		vars[fmt.Sprintf("cb_ret%d", i)] = SV{t: rs[i].t, typ: rt}
+	}
 }
